@@ -437,4 +437,983 @@ theorem effectFrom_sorted (k : String) (i : Nat) (l : List Rxn) :
       · have := h2 a ha; omega
     · exact ⟨h1, fun a ha => by have := h2 a ha; omega⟩
 
+/-! ### subset -/
+
+theorem mem_newSubstances (s : RSys) (coll : List Rxn) (kv : String × Subst) :
+    kv ∈ newSubstances s coll ↔ kv ∈ s.substs ∧ ∃ r ∈ coll, kv.1 ∈ r.keys := by
+  simp [newSubstances, List.mem_filter]
+
+theorem subset_ok {s : RSys} {pred : Rxn → Bool} {checks : List Check} {y n : RSys}
+    (h : subset s pred checks = .ok (y, n)) :
+    y = ⟨s.rxns.filter pred, newSubstances s (s.rxns.filter pred)⟩ ∧
+    n = ⟨s.rxns.filter (fun r => !pred r), newSubstances s (s.rxns.filter fun r => !pred r)⟩ ∧
+    (∀ c ∈ checks, runCheck y c = true) ∧ (∀ c ∈ checks, runCheck n c = true) := by
+  simp only [subset] at h
+  split at h
+  · simp at h
+  · rename_i y' hy
+    split at h
+    · simp at h
+    · rename_i n' hn
+      simp only [Except.ok.injEq, Prod.mk.injEq] at h
+      obtain ⟨rfl, rfl⟩ := h
+      obtain ⟨e1, f1⟩ := make_odict_ok hy
+      obtain ⟨e2, f2⟩ := make_odict_ok hn
+      refine ⟨e1, e2, ?_, ?_⟩
+      · rw [e1]; exact firstFailing_none f1
+      · rw [e2]; exact firstFailing_none f2
+
+theorem subset_nochecks (s : RSys) (pred : Rxn → Bool) :
+    subset s pred [] = .ok (⟨s.rxns.filter pred, newSubstances s (s.rxns.filter pred)⟩,
+      ⟨s.rxns.filter (fun r => !pred r), newSubstances s (s.rxns.filter fun r => !pred r)⟩) := by
+  simp [subset, make_odict_nochecks]
+
+/-! ### OrderedDict update -/
+
+def okeys (od : ODict) : List String := od.map (·.1)
+
+theorem okeys_odictSet (k : String) (v : Subst) (od : ODict) :
+    okeys (odictSet k v od) = if k ∈ okeys od then okeys od else okeys od ++ [k] := by
+  induction od with
+  | nil => simp [odictSet, okeys]
+  | cons a t ih =>
+    obtain ⟨a1, a2⟩ := a
+    simp only [odictSet]
+    by_cases h : a1 = k
+    · subst h; simp [okeys]
+    · simp only [h, ↓reduceIte]
+      simp only [okeys, List.map_cons, List.mem_cons] at ih ⊢
+      rw [ih]
+      have h' : ¬ k = a1 := fun e => h e.symm
+      by_cases hk : k ∈ List.map (fun x => x.1) t
+      · simp [hk]
+      · simp [hk, h']
+
+theorem lookup_odictSet (k : String) (v : Subst) (od : ODict) (k' : String) :
+    (odictSet k v od).lookup k' = if k' = k then some v else od.lookup k' := by
+  induction od with
+  | nil =>
+    by_cases h : k' = k
+    · subst h; simp [odictSet, List.lookup]
+    · have : (k' == k) = false := by simpa using h
+      simp [odictSet, List.lookup, this, h]
+  | cons a t ih =>
+    obtain ⟨a1, a2⟩ := a
+    simp only [odictSet]
+    by_cases h : a1 = k
+    · subst h
+      by_cases h2 : k' = a1
+      · subst h2; simp [List.lookup]
+      · have : (k' == a1) = false := by simpa using h2
+        simp [List.lookup, this, h2]
+    · simp only [h, ↓reduceIte, List.lookup_cons]
+      by_cases h2 : k' = a1
+      · subst h2
+        have : ¬ k' = k := h
+        simp [this]
+      · have : (k' == a1) = false := by simpa using h2
+        simp only [this]
+        exact ih
+
+theorem lookup_none_of_not_mem {od : ODict} {k : String} (h : k ∉ okeys od) : od.lookup k = none := by
+  induction od with
+  | nil => rfl
+  | cons a t ih =>
+    obtain ⟨a1, a2⟩ := a
+    simp only [okeys, List.map_cons, List.mem_cons, not_or] at h
+    have : (k == a1) = false := by simpa using h.1
+    simp only [List.lookup_cons, this]
+    exact ih h.2
+
+theorem odictUpdate_cons (od : ODict) (x : String × Subst) (t : ODict) :
+    odictUpdate od (x :: t) = odictUpdate (odictSet x.1 x.2 od) t := rfl
+
+theorem okeys_cons (x : String × Subst) (t : ODict) : okeys (x :: t) = x.1 :: okeys t := rfl
+
+theorem okeys_odictUpdate (od items : ODict) (hn : (okeys items).Nodup) :
+    okeys (odictUpdate od items) = okeys od ++ (okeys items).filter (fun k => !(okeys od).contains k) := by
+  induction items generalizing od with
+  | nil => simp [odictUpdate, okeys]
+  | cons x t ih =>
+    rw [okeys_cons, List.nodup_cons] at hn
+    rw [odictUpdate_cons, ih _ hn.2, okeys_odictSet, okeys_cons]
+    by_cases hx : x.1 ∈ okeys od
+    · have hx' : (okeys od).contains x.1 = true := by simpa using hx
+      simp only [hx, ↓reduceIte, List.filter_cons, hx', Bool.not_true, Bool.false_eq_true]
+    · have hx' : (okeys od).contains x.1 = false := by simpa using hx
+      simp only [hx, ↓reduceIte, List.append_assoc, List.filter_cons, hx', Bool.not_false, List.singleton_append]
+      congr 2
+      apply List.filter_congr
+      intro k hk
+      have : k ≠ x.1 := fun e => hn.1 (e ▸ hk)
+      simp [this]
+
+theorem lookup_odictUpdate (od items : ODict) (hn : (okeys items).Nodup) (k : String) :
+    (odictUpdate od items).lookup k = (items.lookup k).or (od.lookup k) := by
+  induction items generalizing od with
+  | nil => simp [odictUpdate]
+  | cons x t ih =>
+    obtain ⟨x1, x2⟩ := x
+    simp only [okeys, List.map_cons, List.nodup_cons] at hn
+    rw [odictUpdate_cons, ih _ hn.2, lookup_odictSet]
+    by_cases hk : k = x1
+    · subst hk
+      have : t.lookup k = none := lookup_none_of_not_mem hn.1
+      simp [this, List.lookup]
+    · have : (k == x1) = false := by simpa using hk
+      simp [hk, List.lookup_cons, this]
+
+theorem odictUpdate_nodup (od items : ODict) (h : (okeys od).Nodup) : (okeys (odictUpdate od items)).Nodup := by
+  induction items generalizing od with
+  | nil => simpa [odictUpdate] using h
+  | cons x t ih =>
+    rw [odictUpdate_cons]
+    apply ih
+    rw [okeys_odictSet]
+    by_cases hx : x.1 ∈ okeys od
+    · simpa [hx] using h
+    · simp only [hx, ↓reduceIte]
+      rw [List.nodup_append]
+      refine ⟨h, by simp, ?_⟩
+      intro a ha b hb
+      simp only [List.mem_singleton] at hb
+      subst hb
+      exact fun e => hx (e ▸ ha)
+
+theorem odictUpdate_disjoint (od items : ODict) (hn : (okeys items).Nodup)
+    (hd : ∀ k ∈ okeys items, k ∉ okeys od) : odictUpdate od items = od ++ items := by
+  induction items generalizing od with
+  | nil => simp [odictUpdate]
+  | cons x t ih =>
+    obtain ⟨x1, x2⟩ := x
+    simp only [okeys, List.map_cons, List.nodup_cons] at hn
+    have hx : x1 ∉ okeys od := hd x1 (by simp [okeys])
+    have hset : odictSet x1 x2 od = od ++ [(x1, x2)] := by
+      clear ih hd
+      induction od with
+      | nil => rfl
+      | cons a u ihu =>
+        simp only [okeys, List.map_cons, List.mem_cons, not_or] at hx
+        have : ¬ a.1 = x1 := fun e => hx.1 e.symm
+        simp only [odictSet, this, ↓reduceIte, List.cons_append]
+        rw [ihu hx.2]
+    rw [odictUpdate_cons, hset, ih _ hn.2]
+    · simp
+    · intro k hk
+      simp only [okeys, List.map_append, List.map_cons, List.map_nil, List.mem_append, List.mem_singleton, not_or]
+      refine ⟨hd k (by simp [okeys] at hk ⊢; right; exact hk), ?_⟩
+      intro e; subst e; exact hn.1 (by simpa [okeys] using hk)
+
+theorem odictOf_of_nodup (od : ODict) (h : (okeys od).Nodup) : odictOf od = od := by
+  have := odictUpdate_disjoint [] od h (by simp [okeys])
+  simpa [odictOf] using this
+
+theorem odictUpdate_append (od a b : ODict) : odictUpdate od (a ++ b) = odictUpdate (odictUpdate od a) b := by
+  simp [odictUpdate, List.foldl_append]
+
+theorem add_eq_iadd (a b : RSys) (ha : a.keys.Nodup) : add a b = iadd a b := by
+  simp only [add, iadd, odictOf, odictUpdate_append]
+  have := odictOf_of_nodup a.substs (by simpa [okeys, RSys.keys] using ha)
+  simp only [odictOf] at this
+  rw [this]
+
+/-! ### per-substance containers -/
+
+theorem lookupAll_eq_some {α : Type} (cont : List (String × α)) (ks : List String) (l : List α) :
+    lookupAll cont ks = some l ↔ ks.map (fun k => cont.lookup k) = l.map some := by
+  induction ks generalizing l with
+  | nil => cases l <;> simp [lookupAll]
+  | cons k t ih =>
+    simp only [lookupAll, List.map_cons]
+    cases hk : cont.lookup k with
+    | none =>
+      cases l <;> simp
+    | some v =>
+      cases ht : lookupAll cont t with
+      | none =>
+        simp only [reduceCtorEq, false_iff]
+        cases l with
+        | nil => simp
+        | cons a u =>
+          simp only [List.map_cons, List.cons.injEq, Option.some.injEq, not_and]
+          intro _ h
+          have := (ih u).mpr h
+          rw [ht] at this; simp at this
+      | some l' =>
+        have := (ih l').mp ht
+        cases l with
+        | nil => simp
+        | cons a u =>
+          simp only [Option.some.injEq, List.cons.injEq, List.map_cons]
+          constructor
+          · rintro ⟨rfl, rfl⟩; exact ⟨rfl, this⟩
+          · rintro ⟨rfl, h⟩
+            refine ⟨rfl, ?_⟩
+            have h2 := (ih u).mpr h
+            rw [ht] at h2
+            simpa using h2
+
+theorem map_lookup_zip {α : Type} (ks : List String) (arr : List α) (hn : ks.Nodup) (hl : arr.length = ks.length) :
+    ks.map (fun k => (ks.zip arr).lookup k) = arr.map some := by
+  induction ks generalizing arr with
+  | nil => cases arr <;> simp_all
+  | cons k t ih =>
+    cases arr with
+    | nil => simp at hl
+    | cons a u =>
+      simp only [List.nodup_cons] at hn
+      simp only [List.zip_cons_cons, List.map_cons, List.lookup_cons, beq_self_eq_true, List.cons.injEq, true_and]
+      rw [← ih u hn.2 (by simpa using hl)]
+      apply List.map_congr_left
+      intro k' hk'
+      have : (k' == k) = false := by
+        simp only [beq_eq_false_iff_ne, ne_eq]; intro e; exact hn.1 (e ▸ hk')
+      simp [this]
+
+theorem zip_keys_all_known {α : Type} (ks : List String) (arr : List α) :
+    ((ks.zip arr).any fun kv => !ks.contains kv.1) = false := by
+  rw [List.any_eq_false]
+  intro kv hkv
+  have := (List.of_mem_zip hkv).1
+  simp [this]
+
+/-! ### upper_conc_bounds -/
+
+theorem sum_nonneg' {l : List Rat} (hpos : ∀ x ∈ l, 0 ≤ x) : 0 ≤ l.sum := by
+  induction l with
+  | nil => simp
+  | cons a t ih =>
+    have := ih (fun x hx => hpos x (by simp [hx]))
+    have := hpos a (by simp)
+    simp only [List.sum_cons]; linarith
+
+theorem mem_le_sum {l : List Rat} (hpos : ∀ x ∈ l, 0 ≤ x) {x : Rat} (hx : x ∈ l) : x ≤ l.sum := by
+  induction l with
+  | nil => simp at hx
+  | cons a t ih =>
+    have ha : 0 ≤ a := hpos a (by simp)
+    have ht : 0 ≤ t.sum := sum_nonneg' (fun x hx => hpos x (by simp [hx]))
+    simp only [List.sum_cons]
+    rcases List.mem_cons.mp hx with rfl | h
+    · linarith
+    · have := ih (fun x hx => hpos x (by simp [hx])) h
+      linarith
+
+/-- every composition entry that counts (key not skipped) has a non-negative coefficient -/
+def compNonneg (skip : List Nat) (comp : Comp) : Prop := ∀ kv ∈ comp, ¬ skip.contains kv.1 → 0 ≤ kv.2
+
+theorem compContribution_terms_nonneg {skip : List Nat} {k : Nat} {conc : Rat} {comp : Comp}
+    (hc : 0 ≤ conc) (hn : compNonneg skip comp) :
+    ∀ x ∈ comp.map (fun kv => if kv.1 = k ∧ ¬ skip.contains kv.1 then (kv.2 : Rat) * conc else 0), 0 ≤ x := by
+  intro x hx
+  simp only [List.mem_map] at hx
+  obtain ⟨kv, hkv, rfl⟩ := hx
+  split
+  · rename_i h
+    have : (0 : Int) ≤ kv.2 := hn kv hkv h.2
+    have : (0 : Rat) ≤ (kv.2 : Rat) := by exact_mod_cast this
+    exact mul_nonneg this hc
+  · exact le_refl _
+
+theorem compContribution_nonneg {skip : List Nat} {k : Nat} {conc : Rat} {comp : Comp}
+    (hc : 0 ≤ conc) (hn : compNonneg skip comp) : 0 ≤ compContribution skip k conc comp :=
+  sum_nonneg' (compContribution_terms_nonneg hc hn)
+
+theorem le_compContribution {skip : List Nat} {k : Nat} {v : Int} {conc : Rat} {comp : Comp}
+    (hc : 0 ≤ conc) (hn : compNonneg skip comp) (hmem : (k, v) ∈ comp) (hk : ¬ skip.contains k) :
+    (v : Rat) * conc ≤ compContribution skip k conc comp := by
+  apply mem_le_sum (compContribution_terms_nonneg hc hn)
+  simp only [List.mem_map]
+  exact ⟨(k, v), hmem, if_pos ⟨rfl, hk⟩⟩
+
+theorem le_elementTotal {skip : List Nat} {k : Nat} {v : Int} {cs : List (Rat × Comp)} {i : Nat} {conc : Rat} {comp : Comp}
+    (hc : ∀ p ∈ cs, 0 ≤ p.1) (hn : ∀ p ∈ cs, compNonneg skip p.2)
+    (hi : cs[i]? = some (conc, comp)) (hmem : (k, v) ∈ comp) (hk : ¬ skip.contains k) :
+    (v : Rat) * conc ≤ elementTotal skip cs k := by
+  have hp : (conc, comp) ∈ cs := List.mem_of_getElem? hi
+  have h1 := le_compContribution (k := k) (hc _ hp) (hn _ hp) hmem hk
+  refine le_trans h1 ?_
+  apply mem_le_sum
+  · intro x hx
+    simp only [List.mem_map] at hx
+    obtain ⟨p, hp', rfl⟩ := hx
+    exact compContribution_nonneg (hc p hp') (hn p hp')
+  · simp only [List.mem_map]
+    exact ⟨(conc, comp), hp, rfl⟩
+
+theorem chooseFrom_spec {total : Nat → Rat} {comp : Comp} {l : List Rat} (h : chooseFrom total comp = .ok l) :
+    (∀ x, x ∈ l ↔ ∃ k v, (k, v) ∈ comp ∧ k ≠ 0 ∧ x = total k / (v : Rat)) ∧
+    ∀ k v, (k, v) ∈ comp → k ≠ 0 → v ≠ 0 := by
+  induction comp generalizing l with
+  | nil =>
+    simp only [chooseFrom, Except.ok.injEq] at h
+    subst h; simp
+  | cons a t ih =>
+    obtain ⟨k0, v0⟩ := a
+    simp only [chooseFrom] at h
+    split at h
+    · rename_i hk
+      obtain ⟨h1, h2⟩ := ih h
+      constructor
+      · intro x
+        rw [h1]
+        constructor
+        · rintro ⟨k, v, hm, hk', hx⟩; exact ⟨k, v, by simp [hm], hk', hx⟩
+        · rintro ⟨k, v, hm, hk', hx⟩
+          rcases List.mem_cons.mp hm with e | hm
+          · simp only [Prod.mk.injEq] at e; exact absurd (e.1.trans hk) hk'
+          · exact ⟨k, v, hm, hk', hx⟩
+      · intro k v hm hk'
+        rcases List.mem_cons.mp hm with e | hm
+        · simp only [Prod.mk.injEq] at e; exact absurd (e.1.trans hk) hk'
+        · exact h2 k v hm hk'
+    · rename_i hk
+      split at h
+      · simp at h
+      · rename_i hv
+        split at h
+        · simp at h
+        · rename_i l' hl'
+          simp only [Except.ok.injEq] at h
+          subst h
+          obtain ⟨h1, h2⟩ := ih hl'
+          constructor
+          · intro x
+            rw [List.mem_cons, h1]
+            constructor
+            · rintro (rfl | ⟨k, v, hm, hk', hx⟩)
+              · exact ⟨k0, v0, by simp, hk, rfl⟩
+              · exact ⟨k, v, by simp [hm], hk', hx⟩
+            · rintro ⟨k, v, hm, hk', hx⟩
+              rcases List.mem_cons.mp hm with e | hm
+              · simp only [Prod.mk.injEq] at e; left; rw [hx, e.1, e.2]
+              · right; exact ⟨k, v, hm, hk', hx⟩
+          · intro k v hm hk'
+            rcases List.mem_cons.mp hm with e | hm
+            · simp only [Prod.mk.injEq] at e; rw [e.2]; exact hv
+            · exact h2 k v hm hk'
+
+theorem minOf_spec (x : Rat) (t : List Rat) : minOf x t ∈ x :: t ∧ ∀ y ∈ x :: t, minOf x t ≤ y := by
+  induction t generalizing x with
+  | nil => simp [minOf]
+  | cons a u ih =>
+    simp only [minOf]
+    obtain ⟨h1, h2⟩ := ih (if a < x then a else x)
+    constructor
+    · rcases List.mem_cons.mp h1 with h | h
+      · rw [h]; split <;> simp
+      · simp [h]
+    · intro y hy
+      have hm := h2 (if a < x then a else x) (by simp)
+      rcases List.mem_cons.mp hy with rfl | hy
+      · refine le_trans hm ?_; split <;> [exact le_of_lt ‹_›; exact le_refl _]
+      · rcases List.mem_cons.mp hy with rfl | hy
+        · refine le_trans hm ?_
+          split
+          · exact le_refl _
+          · exact not_lt.mp ‹_›
+        · exact h2 y (by simp [hy])
+
+theorem boundOf_some {l : List Rat} {b : Rat} (h : boundOf l = some b) : b ∈ l ∧ ∀ y ∈ l, b ≤ y := by
+  cases l with
+  | nil => simp [boundOf] at h
+  | cons x t =>
+    simp only [boundOf, Option.some.injEq] at h
+    subst h
+    exact minOf_spec x t
+
+theorem boundOf_none {l : List Rat} : boundOf l = none ↔ l = [] := by
+  cases l <;> simp [boundOf]
+
+theorem boundsLoop_spec {total : Nat → Rat} {comps : List Comp} {bs : List (Option Rat)}
+    (h : boundsLoop total comps = .ok bs) :
+    bs.length = comps.length ∧
+    ∀ (i : Nat) (c : Comp), comps[i]? = some c → ∃ l, chooseFrom total c = .ok l ∧ bs[i]? = some (boundOf l) := by
+  induction comps generalizing bs with
+  | nil =>
+    simp only [boundsLoop, Except.ok.injEq] at h
+    subst h; simp
+  | cons c t ih =>
+    simp only [boundsLoop] at h
+    split at h
+    · simp at h
+    · rename_i l hl
+      split at h
+      · simp at h
+      · rename_i bs' hbs
+        simp only [Except.ok.injEq] at h
+        subst h
+        obtain ⟨h1, h2⟩ := ih hbs
+        refine ⟨by simp [h1], ?_⟩
+        intro i c' hi
+        cases i with
+        | zero =>
+          simp only [List.getElem?_cons_zero, Option.some.injEq] at hi
+          subst hi
+          exact ⟨l, hl, by simp⟩
+        | succ i =>
+          simp only [List.getElem?_cons_succ] at hi ⊢
+          exact h2 i c' hi
+
+theorem allComps_spec {subs : List Subst} {comps : List Comp} (h : allComps subs = some comps) :
+    subs.map (·.comp) = comps.map some := by
+  induction subs generalizing comps with
+  | nil =>
+    simp only [allComps, Option.some.injEq] at h
+    subst h; rfl
+  | cons s t ih =>
+    simp only [allComps] at h
+    split at h
+    · rename_i c l hc hl
+      simp only [Option.some.injEq] at h
+      subst h
+      simp [hc, ih hl]
+    · simp at h
+
+/-- the compositions of the substances, in substance order (all of them when every substance has one) -/
+def compsOf (s : RSys) : List Comp := s.substs.filterMap (·.2.comp)
+
+/-- total amount of composition key `k` (an element; 0 = charge is skipped like in the code) in the state `c` -/
+def elemTotal (s : RSys) (c : List Rat) (k : Nat) : Rat := elementTotal [0] (c.zip (compsOf s)) k
+
+theorem allComps_filterMap {subs : List Subst} {comps : List Comp} (h : allComps subs = some comps) :
+    subs.filterMap (·.comp) = comps ∧ comps.length = subs.length := by
+  induction subs generalizing comps with
+  | nil =>
+    simp only [allComps, Option.some.injEq] at h
+    subst h; simp
+  | cons s t ih =>
+    simp only [allComps] at h
+    split at h
+    · rename_i c l hc hl
+      simp only [Option.some.injEq] at h
+      subst h
+      obtain ⟨h1, h2⟩ := ih hl
+      simp [List.filterMap_cons, hc, h1, h2]
+    · simp at h
+
+theorem upperConcBounds_ok {s : RSys} {init : List Rat} {skip : List Nat} {bs : List (Option Rat)}
+    (h : upperConcBounds s init skip = .ok bs) :
+    init.length = s.ns ∧ (compsOf s).length = s.ns ∧
+      boundsLoop (elementTotal skip (init.zip (compsOf s))) (compsOf s) = .ok bs := by
+  simp only [upperConcBounds, asPerSubstanceArrayList] at h
+  split at h
+  · simp at h
+  · rename_i concs hc
+    split at hc
+    · rename_i hlen
+      simp only [Except.ok.injEq] at hc
+      subst hc
+      split at h
+      · simp at h
+      · rename_i comps hcomps
+        obtain ⟨h1, h2⟩ := allComps_filterMap hcomps
+        have e : compsOf s = comps := by
+          simp only [compsOf]; rw [← h1, List.filterMap_map]; rfl
+        rw [e]
+        exact ⟨hlen, by simpa [RSys.ns] using h2, h⟩
+    · simp at hc
+
+theorem isReverse_iff (keys : List String) (r1 r2 : Rxn) :
+    isReverse keys r1 r2 = true ↔ ∀ k ∈ keys, r1.allReac k = r2.allProd k ∧ r1.allProd k = r2.allReac k := by
+  simp only [isReverse, Bool.and_eq_true, beq_iff_eq, List.map_inj_left]
+  constructor
+  · rintro ⟨h1, h2⟩ k hk; exact ⟨h1 k hk, h2 k hk⟩
+  · intro h; exact ⟨fun k hk => (h k hk).1, fun k hk => (h k hk).2⟩
+
+/-! ### split: the reaction graph -/
+
+/-- key set of reaction `a` (none out of range) -/
+def keysAt (ks : List (List String)) (a : Nat) : List String :=
+  match ks[a]? with
+  | some l => l
+  | none => []
+
+/-- reactions `a` and `b` share a species -/
+def Adj (ks : List (List String)) (a b : Nat) : Prop := ∃ k, k ∈ keysAt ks a ∧ k ∈ keysAt ks b
+
+/-- `b` is reachable from `a` by a chain of reactions taken from `S`, consecutive ones sharing a species -/
+inductive Reach (ks : List (List String)) (S : List Nat) : Nat → Nat → Prop
+  | refl (a : Nat) : Reach ks S a a
+  | tail {a b c : Nat} : Reach ks S a b → c ∈ S → Adj ks b c → Reach ks S a c
+
+theorem Adj.symm {ks : List (List String)} {a b : Nat} (h : Adj ks a b) : Adj ks b a := by
+  obtain ⟨k, h1, h2⟩ := h; exact ⟨k, h2, h1⟩
+
+theorem Reach.mono {ks : List (List String)} {S S' : List Nat} (hS : ∀ x ∈ S, x ∈ S') {a b : Nat}
+    (h : Reach ks S a b) : Reach ks S' a b := by
+  induction h with
+  | refl => exact .refl _
+  | tail _ hc hadj ih => exact .tail ih (hS _ hc) hadj
+
+theorem Reach.trans {ks : List (List String)} {S : List Nat} {a b c : Nat}
+    (h1 : Reach ks S a b) (h2 : Reach ks S b c) : Reach ks S a c := by
+  induction h2 with
+  | refl => exact h1
+  | tail _ hc hadj ih => exact .tail ih hc hadj
+
+theorem Reach.mem {ks : List (List String)} {S : List Nat} {a b : Nat} (h : Reach ks S a b) (ha : a ∈ S) : b ∈ S := by
+  induction h with
+  | refl => exact ha
+  | tail _ hc _ _ => exact hc
+
+theorem Reach.symm {ks : List (List String)} {S : List Nat} {a b : Nat} (h : Reach ks S a b) (ha : a ∈ S) :
+    Reach ks S b a := by
+  induction h with
+  | refl => exact .refl _
+  | tail hab hc hadj ih =>
+    have hb := hab.mem ha
+    exact Reach.trans (.tail (.refl _) hb hadj.symm) ih
+
+/-- reachability is a property of the graph: it is transported by any relabelling of the reactions that keeps
+their key sets -/
+theorem Reach.relabel {ks ks' : List (List String)} {n : Nat} (σ : Nat → Nat)
+    (hσ : ∀ a, a < n → σ a < n ∧ keysAt ks' (σ a) = keysAt ks a)
+    {a b : Nat} (ha : a < n) (h : Reach ks (List.range n) a b) : Reach ks' (List.range n) (σ a) (σ b) := by
+  induction h with
+  | refl => exact .refl _
+  | tail hab hc hadj ih =>
+    rename_i b c
+    have hb : b < n := by simpa using hab.mem (by simpa using ha)
+    have hc' : c < n := by simpa using hc
+    refine .tail ih (by simpa using (hσ c hc').1) ?_
+    obtain ⟨k, h1, h2⟩ := hadj
+    exact ⟨k, by rw [(hσ b hb).2]; exact h1, by rw [(hσ c hc').2]; exact h2⟩
+
+theorem shares_iff (a b : List String) : shares a b = true ↔ ∃ k, k ∈ a ∧ k ∈ b := by
+  simp [shares]
+
+theorem shares_false_iff (a b : List String) : shares a b = false ↔ ∀ k, k ∈ a → k ∉ b := by
+  rw [← Bool.not_eq_true, shares_iff]
+  constructor
+  · intro h k ha hb; exact h ⟨k, ha, hb⟩
+  · rintro h ⟨k, ha, hb⟩; exact h k ha hb
+
+/-- what `split` maintains for every group: the substance set is the union of the key sets of the group's
+reactions, and the group is connected -/
+structure GroupOK (ks : List (List String)) (g : Group) : Prop where
+  keys : ∀ k, k ∈ g.2 ↔ ∃ a ∈ g.1, k ∈ keysAt ks a
+  conn : ∀ a ∈ g.1, ∀ b ∈ g.1, Reach ks g.1 a b
+
+theorem GroupOK.single (ks : List (List String)) (i : Nat) : GroupOK ks ([i], keysAt ks i) where
+  keys := by intro k; simp
+  conn := by
+    intro a ha b hb
+    simp only [List.mem_singleton] at ha hb
+    subst ha; subst hb; exact .refl _
+
+theorem GroupOK.fuse {ks : List (List String)} {g h : Group} (hg : GroupOK ks g) (hh : GroupOK ks h)
+    (hs : shares g.2 h.2 = true) : GroupOK ks (g.1 ++ h.1, g.2 ++ h.2) where
+  keys := by
+    intro k
+    simp only [List.mem_append, hg.keys, hh.keys]
+    constructor
+    · rintro (⟨a, ha, hk⟩ | ⟨a, ha, hk⟩)
+      · exact ⟨a, Or.inl ha, hk⟩
+      · exact ⟨a, Or.inr ha, hk⟩
+    · rintro ⟨a, ha | ha, hk⟩
+      · exact Or.inl ⟨a, ha, hk⟩
+      · exact Or.inr ⟨a, ha, hk⟩
+  conn := by
+    obtain ⟨k, hk1, hk2⟩ := (shares_iff _ _).mp hs
+    obtain ⟨x, hx, hkx⟩ := (hg.keys k).mp hk1
+    obtain ⟨y, hy, hky⟩ := (hh.keys k).mp hk2
+    have hadj : Adj ks x y := ⟨k, hkx, hky⟩
+    have sub1 : ∀ z ∈ g.1, z ∈ g.1 ++ h.1 := fun z hz => List.mem_append_left _ hz
+    have sub2 : ∀ z ∈ h.1, z ∈ g.1 ++ h.1 := fun z hz => List.mem_append_right _ hz
+    have hxy : Reach ks (g.1 ++ h.1) x y := .tail (.refl _) (sub2 y hy) hadj
+    have hyx : Reach ks (g.1 ++ h.1) y x := .tail (.refl _) (sub1 x hx) hadj.symm
+    intro a ha b hb
+    simp only [List.mem_append] at ha hb
+    rcases ha with ha | ha <;> rcases hb with hb | hb
+    · exact (hg.conn a ha b hb).mono sub1
+    · exact (((hg.conn a ha x hx).mono sub1).trans hxy).trans ((hh.conn y hy b hb).mono sub2)
+    · exact (((hh.conn a ha y hy).mono sub2).trans hyx).trans ((hg.conn x hx b hb).mono sub1)
+    · exact (hh.conn a ha b hb).mono sub2
+
+def flatIdx (gs : List Group) : List Nat := gs.flatMap (·.1)
+
+theorem flatIdx_cons (g : Group) (t : List Group) : flatIdx (g :: t) = g.1 ++ flatIdx t := by
+  simp [flatIdx]
+
+theorem flatIdx_append (a b : List Group) : flatIdx (a ++ b) = flatIdx a ++ flatIdx b := by
+  simp [flatIdx]
+
+theorem place_some {ks : List (List String)} {i : Nat} {groups gs' : List Group}
+    (hok : ∀ g ∈ groups, GroupOK ks g) (h : place i (keysAt ks i) groups = some gs') :
+    (∀ g ∈ gs', GroupOK ks g) ∧ (flatIdx gs').Perm (i :: flatIdx groups) := by
+  induction groups generalizing gs' with
+  | nil => simp [place] at h
+  | cons g t ih =>
+    simp only [place] at h
+    split at h
+    · rename_i hs
+      simp only [Option.some.injEq] at h
+      subst h
+      constructor
+      · intro g' hg'
+        rcases List.mem_cons.mp hg' with rfl | hg'
+        · have hs' : shares g.2 (keysAt ks i) = true := by
+            obtain ⟨k, h1, h2⟩ := (shares_iff _ _).mp hs
+            exact (shares_iff _ _).mpr ⟨k, h2, h1⟩
+          exact GroupOK.fuse (hok g (by simp)) (GroupOK.single ks i) hs'
+        · exact hok g' (by simp [hg'])
+      · rw [flatIdx_cons, flatIdx_cons]
+        simp only [List.append_assoc, List.singleton_append]
+        exact List.perm_middle
+    · split at h
+      · rename_i t' ht'
+        simp only [Option.some.injEq] at h
+        subst h
+        obtain ⟨h1, h2⟩ := ih (fun g' hg' => hok g' (by simp [hg'])) ht'
+        constructor
+        · intro g' hg'
+          rcases List.mem_cons.mp hg' with rfl | hg'
+          · exact hok _ (by simp)
+          · exact h1 g' hg'
+        · rw [flatIdx_cons, flatIdx_cons]
+          exact (List.Perm.append_left g.1 h2).trans List.perm_middle
+      · simp at h
+
+theorem greedyStep_inv {ks : List (List String)} {i : Nat} {groups : List Group}
+    (hok : ∀ g ∈ groups, GroupOK ks g) :
+    (∀ g ∈ greedyStep groups i (keysAt ks i), GroupOK ks g) ∧
+    (flatIdx (greedyStep groups i (keysAt ks i))).Perm (flatIdx groups ++ [i]) := by
+  simp only [greedyStep]
+  split
+  · rename_i gs' h
+    obtain ⟨h1, h2⟩ := place_some hok h
+    refine ⟨h1, h2.trans ?_⟩
+    have := List.perm_append_comm (l₁ := [i]) (l₂ := flatIdx groups)
+    simpa using this
+  · constructor
+    · intro g hg
+      rcases List.mem_append.mp hg with hg | hg
+      · exact hok g hg
+      · simp only [List.mem_singleton] at hg; subst hg; exact GroupOK.single ks i
+    · rw [flatIdx_append]; simp [flatIdx]
+
+theorem greedyFrom_inv (ks : List (List String)) (i : Nat) (groups : List Group) (rest : List (List String))
+    (hrest : rest = ks.drop i) (hi : i ≤ ks.length)
+    (hok : ∀ g ∈ groups, GroupOK ks g) (hperm : (flatIdx groups).Perm (List.range i)) :
+    (∀ g ∈ greedyFrom i groups rest, GroupOK ks g) ∧
+    (flatIdx (greedyFrom i groups rest)).Perm (List.range ks.length) := by
+  induction rest generalizing i groups with
+  | nil =>
+    simp only [greedyFrom]
+    have : ks.length ≤ i := by
+      have := congrArg List.length hrest; simp at this; omega
+    have e : i = ks.length := by omega
+    subst e; exact ⟨hok, hperm⟩
+  | cons rks rest' ih =>
+    have hlt : i < ks.length := by
+      by_contra hn
+      have : ks.drop i = [] := List.drop_eq_nil_of_le (by omega)
+      rw [this] at hrest; simp at hrest
+    rw [List.drop_eq_getElem_cons hlt] at hrest
+    simp only [List.cons.injEq] at hrest
+    obtain ⟨hr1, hr2⟩ := hrest
+    have hk : keysAt ks i = rks := by simp [keysAt, hlt, hr1]
+    simp only [greedyFrom]
+    rw [← hk]
+    obtain ⟨h1, h2⟩ := greedyStep_inv (i := i) hok
+    apply ih (i + 1) _ hr2 (by omega) h1
+    rw [List.range_succ]
+    exact h2.trans (List.Perm.append_right [i] hperm)
+
+/-- disjoint substance sets -/
+def Disj (g h : Group) : Prop := ∀ k, k ∈ g.2 → k ∉ h.2
+
+theorem Disj.symm {g h : Group} (d : Disj g h) : Disj h g := fun k hk hk' => d k hk' hk
+
+theorem fuseFirst_some {g : Group} {rest : List Group} {g' : Group} {rest' : List Group}
+    (h : fuseFirst g rest = some (g', rest')) :
+    ∃ x, x ∈ rest ∧ shares g.2 x.2 = true ∧ g' = (g.1 ++ x.1, g.2 ++ x.2) ∧ (x :: rest').Perm rest := by
+  induction rest generalizing g' rest' with
+  | nil => simp [fuseFirst] at h
+  | cons y t ih =>
+    simp only [fuseFirst] at h
+    split at h
+    · rename_i hs
+      simp only [Option.some.injEq, Prod.mk.injEq] at h
+      obtain ⟨rfl, rfl⟩ := h
+      exact ⟨y, by simp, hs, rfl, List.Perm.refl _⟩
+    · split at h
+      · rename_i g'' t'' heq
+        simp only [Option.some.injEq, Prod.mk.injEq] at h
+        obtain ⟨rfl, rfl⟩ := h
+        obtain ⟨x, hx, hs, hg, hp⟩ := ih heq
+        exact ⟨x, by simp [hx], hs, hg, (List.Perm.swap y x t'').trans (List.Perm.cons y hp)⟩
+      · simp at h
+
+theorem fuseFirst_none {g : Group} {rest : List Group} (h : fuseFirst g rest = none) :
+    ∀ x ∈ rest, shares g.2 x.2 = false := by
+  induction rest with
+  | nil => simp
+  | cons y t ih =>
+    simp only [fuseFirst] at h
+    split at h
+    · simp at h
+    · rename_i hs
+      split at h
+      · simp at h
+      · rename_i hn
+        intro x hx
+        rcases List.mem_cons.mp hx with rfl | hx
+        · simpa using hs
+        · exact ih hn x hx
+
+/-- invariant of the `while True` loop of `split` and its conclusion at exit -/
+theorem fuseLoop_inv (ks : List (List String)) (n : Nat) (done : List Group) (g : Group) (rest : List Group)
+    (hn : rest.length = n)
+    (hok : ∀ x ∈ done ++ g :: rest, GroupOK ks x)
+    (hdd : done.Pairwise Disj) (hdr : ∀ d ∈ done, ∀ x ∈ g :: rest, Disj d x) :
+    (∀ x ∈ fuseLoop done g rest, GroupOK ks x) ∧
+    (flatIdx (fuseLoop done g rest)).Perm (flatIdx (done ++ g :: rest)) ∧
+    (fuseLoop done g rest).Pairwise Disj := by
+  induction n using Nat.strong_induction_on generalizing done g rest with
+  | _ n ih =>
+    rw [fuseLoop]
+    split
+    · rename_i g' rest' hff
+      obtain ⟨x, hx, hs, hg', hp⟩ := fuseFirst_some hff
+      have hlen := fuseFirst_length hff
+      have hxok : GroupOK ks x := hok x (by simp [hx])
+      have hgok : GroupOK ks g := hok g (by simp)
+      have hsub : ∀ y ∈ rest', y ∈ rest := fun y hy => hp.subset (by simp [hy])
+      obtain ⟨r1, r2, r3⟩ := ih rest'.length (by omega) done g' rest' rfl
+        (by
+          intro y hy
+          rcases List.mem_append.mp hy with hy | hy
+          · exact hok y (by simp [hy])
+          · rcases List.mem_cons.mp hy with rfl | hy
+            · rw [hg']; exact GroupOK.fuse hgok hxok hs
+            · exact hok y (by simp [hsub y hy]))
+        hdd
+        (by
+          intro d hd y hy
+          rcases List.mem_cons.mp hy with rfl | hy
+          · rw [hg']
+            intro k hk
+            have h1 := hdr d hd g (by simp) k hk
+            have h2 := hdr d hd x (by simp [hx]) k hk
+            simp only [List.mem_append, not_or]
+            exact ⟨h1, h2⟩
+          · exact hdr d hd y (by simp [hsub y hy]))
+      refine ⟨r1, r2.trans ?_, r3⟩
+      rw [flatIdx_append, flatIdx_append, flatIdx_cons, flatIdx_cons, hg']
+      apply List.Perm.append_left
+      simp only [List.append_assoc]
+      apply List.Perm.append_left
+      have := List.Perm.flatMap_right (fun (y : Group) => y.1) hp
+      simpa [flatIdx] using this
+    · rename_i hff
+      have hnone := fuseFirst_none hff
+      have hgd : ∀ x ∈ rest, Disj g x := fun x hx => (shares_false_iff _ _).mp (hnone x hx)
+      split
+      · refine ⟨by simpa using hok, List.Perm.refl _, ?_⟩
+        rw [List.pairwise_append]
+        exact ⟨hdd, by simp, fun d hd y hy => by
+          simp only [List.mem_singleton] at hy; subst hy; exact hdr d hd _ (by simp)⟩
+      · rename_i g2 rest2 _heq
+        obtain ⟨r1, r2, r3⟩ := ih rest2.length (by simp at hn; omega) (done ++ [g]) g2 rest2 rfl
+          (by simpa using hok)
+          (by
+            rw [List.pairwise_append]
+            exact ⟨hdd, by simp, fun d hd y hy => by
+              simp only [List.mem_singleton] at hy; subst hy; exact hdr d hd _ (by simp)⟩)
+          (by
+            intro d hd y hy
+            rcases List.mem_append.mp hd with hd | hd
+            · exact hdr d hd y (by simp [List.mem_cons.mp hy])
+            · simp only [List.mem_singleton] at hd; subst hd
+              exact hgd y hy)
+        refine ⟨r1, r2.trans ?_, r3⟩
+        simp
+
+theorem splitGroups_inv (ks : List (List String)) :
+    (∀ g ∈ splitGroups ks, GroupOK ks g) ∧
+    (flatIdx (splitGroups ks)).Perm (List.range ks.length) ∧
+    (splitGroups ks).Pairwise Disj := by
+  obtain ⟨h1, h2⟩ := greedyFrom_inv ks 0 [] ks (by simp) (by omega) (by simp) (by simp [flatIdx])
+  simp only [splitGroups]
+  cases hg : greedyFrom 0 [] ks with
+  | nil =>
+    rw [hg] at h2
+    simp only [fuse]
+    exact ⟨by simp, h2, List.Pairwise.nil⟩
+  | cons g rest =>
+    rw [hg] at h1 h2
+    simp only [fuse]
+    obtain ⟨r1, r2, r3⟩ := fuseLoop_inv ks rest.length [] g rest rfl (by simpa using h1) List.Pairwise.nil (by simp)
+    exact ⟨r1, r2.trans (by simpa using h2), r3⟩
+
+theorem pairwise_disj_forall {l : List Group} (h : l.Pairwise Disj) {a b : Group} (ha : a ∈ l) (hb : b ∈ l)
+    (hne : a ≠ b) : Disj a b := by
+  induction l with
+  | nil => simp at ha
+  | cons x t ih =>
+    rw [List.pairwise_cons] at h
+    rcases List.mem_cons.mp ha with e1 | ha <;> rcases List.mem_cons.mp hb with e2 | hb
+    · exact absurd (e1.trans e2.symm) hne
+    · rw [e1]; exact h.1 b hb
+    · rw [e2]; exact (h.1 a ha).symm
+    · exact ih h.2 ha hb
+
+/-! ### split: the sub-systems -/
+
+theorem pick_isSome {rxns : List Rxn} {idx : List Nat} (h : ∀ a ∈ idx, a < rxns.length) :
+    ∃ l, pick rxns idx = some l := by
+  induction idx with
+  | nil => exact ⟨[], rfl⟩
+  | cons a t ih =>
+    obtain ⟨l, hl⟩ := ih (fun x hx => h x (by simp [hx]))
+    have ha : a < rxns.length := h a (by simp)
+    exact ⟨rxns[a] :: l, by simp [pick, hl, ha]⟩
+
+theorem pick_spec {rxns : List Rxn} {idx : List Nat} {l : List Rxn} (h : pick rxns idx = some l) :
+    idx.map (fun a => rxns[a]?) = l.map some := by
+  induction idx generalizing l with
+  | nil => simp only [pick, Option.some.injEq] at h; subst h; rfl
+  | cons a t ih =>
+    simp only [pick] at h
+    split at h
+    · rename_i r l' hr hl'
+      simp only [Option.some.injEq] at h
+      subst h
+      simp [hr, ih hl']
+    · simp at h
+
+/-- relation between a group computed by `split` and the sub-system built from it -/
+def PartOf (s : RSys) (g : Group) (p : List Nat × RSys) : Prop :=
+  p.1 = g.1 ∧ g.1.map (fun a => s.rxns[a]?) = p.2.rxns.map some ∧
+  p.2.substs = s.substs.filter (fun kv => g.2.contains kv.1)
+
+theorem buildGroups_ok {s : RSys} {checks : List Check} {groups : List Group} {l : List (List Nat × RSys)}
+    (h : buildGroups s checks groups = .ok l) :
+    List.Forall₂ (PartOf s) groups l ∧ ∀ p ∈ l, ∀ c ∈ checks, runCheck p.2 c = true := by
+  induction groups generalizing l with
+  | nil =>
+    simp only [buildGroups, Except.ok.injEq] at h
+    subst h; exact ⟨List.Forall₂.nil, by simp⟩
+  | cons g t ih =>
+    simp only [buildGroups] at h
+    split at h
+    · simp at h
+    · rename_i rx hrx
+      split at h
+      · simp at h
+      · rename_i sub hsub
+        split at h
+        · simp at h
+        · rename_i l' hl'
+          simp only [Except.ok.injEq] at h
+          subst h
+          obtain ⟨e, hff⟩ := make_odict_ok hsub
+          obtain ⟨h1, h2⟩ := ih hl'
+          refine ⟨List.Forall₂.cons ⟨rfl, ?_, ?_⟩ h1, ?_⟩
+          · rw [e]; exact pick_spec hrx
+          · rw [e]
+          · intro p hp c hc
+            rcases List.mem_cons.mp hp with rfl | hp
+            · simp only; rw [e]; exact firstFailing_none hff c hc
+            · exact h2 p hp c hc
+
+theorem buildGroups_nochecks {s : RSys} {groups : List Group}
+    (hidx : ∀ g ∈ groups, ∀ a ∈ g.1, a < s.rxns.length) : ∃ l, buildGroups s [] groups = .ok l := by
+  induction groups with
+  | nil => exact ⟨[], rfl⟩
+  | cons g t ih =>
+    obtain ⟨l, hl⟩ := ih (fun g' hg' => hidx g' (by simp [hg']))
+    obtain ⟨rx, hrx⟩ := pick_isSome (hidx g (by simp))
+    exact ⟨(g.1, ⟨rx, s.substs.filter (fun kv => g.2.contains kv.1)⟩) :: l, by
+      simp only [buildGroups, hrx, make_odict_nochecks, hl]⟩
+
+theorem mem_flatIdx {gs : List Group} {a : Nat} : a ∈ flatIdx gs ↔ ∃ g ∈ gs, a ∈ g.1 := by
+  simp [flatIdx, List.mem_flatMap]
+
+/-! ### constructor: ordering and checks -/
+
+theorem sortSubstances_sorted (od : ODict) : (sortSubstances od).Pairwise (fun a b => a.1 ≤ b.1) := by
+  have := List.pairwise_mergeSort (le := fun (a b : String × Subst) => decide (a.1 ≤ b.1))
+    (by intro a b c h1 h2; simp only [decide_eq_true_eq] at h1 h2 ⊢; exact String.le_trans h1 h2)
+    (by intro a b; simp only [Bool.or_eq_true, decide_eq_true_eq]; exact String.le_total a.1 b.1) od
+  simpa [sortSubstances] using this
+
+theorem sortSubstances_perm (od : ODict) : (sortSubstances od).Perm od := List.mergeSort_perm od _
+
+theorem mem_okeys_odictUpdate (od items : ODict) (k : String) :
+    k ∈ okeys (odictUpdate od items) ↔ k ∈ okeys od ∨ k ∈ okeys items := by
+  induction items generalizing od with
+  | nil => simp [odictUpdate, okeys]
+  | cons x t ih =>
+    rw [odictUpdate_cons, ih, okeys_odictSet, okeys_cons]
+    by_cases hx : x.1 ∈ okeys od
+    · simp only [hx, ↓reduceIte, List.mem_cons]
+      constructor
+      · rintro (h | h)
+        · exact Or.inl h
+        · exact Or.inr (Or.inr h)
+      · rintro (h | h | h)
+        · exact Or.inl h
+        · exact Or.inl (h ▸ hx)
+        · exact Or.inr h
+    · simp only [hx, ↓reduceIte, List.mem_append, List.mem_singleton, List.mem_cons]
+      tauto
+
+theorem checkSubstanceKeys_iff (s : RSys) :
+    checkSubstanceKeys s = true ↔ ∀ r ∈ s.rxns, ∀ k ∈ r.keys, k ∈ s.keys := by
+  simp [checkSubstanceKeys, List.all_eq_true]
+
+theorem hasDuplicate_false_iff (l : List Rxn) :
+    hasDuplicate l = false ↔ l.Pairwise (fun a b => a.pyEq b = false) := by
+  induction l with
+  | nil => simp [hasDuplicate]
+  | cons r t ih =>
+    simp only [hasDuplicate, Bool.or_eq_false_iff, List.any_eq_false, List.pairwise_cons, ih]
+    constructor
+    · rintro ⟨h1, h2⟩; exact ⟨fun b hb => by simpa using h1 b hb, h2⟩
+    · rintro ⟨h1, h2⟩; exact ⟨fun b hb => by simpa using h1 b hb, h2⟩
+
+theorem dupNamesLoop_iff (seen : List String) (l : List Rxn) :
+    dupNamesLoop seen l = true ↔ (l.filterMap (·.name)).Nodup ∧ ∀ n ∈ l.filterMap (·.name), n ∉ seen := by
+  induction l generalizing seen with
+  | nil => simp [dupNamesLoop]
+  | cons r t ih =>
+    simp only [dupNamesLoop]
+    cases hn : r.name with
+    | none => simp [List.filterMap_cons, hn, ih]
+    | some n =>
+      simp only [List.filterMap_cons, hn, List.nodup_cons, List.mem_cons, forall_eq_or_imp]
+      by_cases hs : seen.contains n = true
+      · simp only [hs, ↓reduceIte, Bool.false_eq_true, false_iff]
+        rintro ⟨_, h, _⟩
+        exact h (by simpa using hs)
+      · simp only [hs, Bool.false_eq_true, ↓reduceIte, ih, List.mem_cons, not_or]
+        have hs' : n ∉ seen := by simpa using hs
+        constructor
+        · rintro ⟨h1, h2⟩
+          refine ⟨⟨fun hm => (h2 n hm).1 rfl, h1⟩, hs', fun m hm => (h2 m hm).2⟩
+        · rintro ⟨⟨h1, h2⟩, h3, h4⟩
+          refine ⟨h2, fun m hm => ⟨?_, h4 m hm⟩⟩
+          intro e; subst e; exact h1 hm
+
+/-- does `sort_substances_inplace` run: the explicit argument, else the default by type of `substances` -/
+def sortApplies (rxns : List Rxn) (arg : SubstArg) (sort : Option Bool) : Bool :=
+  match sort with
+  | some b => b
+  | none => (substancesOf rxns arg).2
+
+theorem make_ok {rxns : List Rxn} {arg : SubstArg} {checks : List Check} {sort : Option Bool} {s : RSys}
+    (h : RSys.make rxns arg checks sort = .ok s) :
+    firstFailing ⟨rxns, (substancesOf rxns arg).1⟩ checks = none ∧
+    s = (if sortApplies rxns arg sort then ⟨rxns, sortSubstances (substancesOf rxns arg).1⟩
+         else ⟨rxns, (substancesOf rxns arg).1⟩) := by
+  simp only [RSys.make] at h
+  split at h
+  · simp at h
+  · rename_i hff
+    simp only [Except.ok.injEq] at h
+    exact ⟨hff, h.symm⟩
+
 end ChemModel.RSysGraph
